@@ -45,26 +45,48 @@ def endResult (g : Graph) (e : Spec) : TryGet :=
   | some (.err _ c _) => .error c
   | _ => .none
 
-/-- a walk chain that ends at a specifier without a redirect entry is a redirect chain -/
-theorem hopsTo_of_walkReaches {g : Graph} {k s e} (h : WalkReaches g k s e)
-    (he : g.redirect e = none) : HopsTo g.redirect k s e := by
+/-- the walk's chain is exactly the chain `resolve` follows: redirect entries of specifiers that
+have no entry of their own (this is where the guard found in the source, table
+`resolveStopsAtEntry`, is used: without it the proof does not go through) -/
+theorem hopsTo_of_walkReaches {g : Graph} {k s e} (h : WalkReaches g k s e) :
+    HopsTo g.redirectEff k s e := by
   induction h with
-  | stop _ => exact HopsTo.done he
-  | hop _ hr _ ih => exact HopsTo.hop hr (ih he)
+  | @stop s hs =>
+    apply HopsTo.done
+    rcases hs with hs | hs
+    · cases h : g.slot s with
+      | none => exact absurd h hs
+      | some sl => simp [Graph.redirectEff, effRedirect, resolveStopsAtEntry, h]
+    · cases h : g.slot s <;> simp [Graph.redirectEff, effRedirect, hs]
+  | hop hs hr _ ih =>
+    exact HopsTo.hop (by simp [Graph.redirectEff, effRedirect, hs, hr]) ih
+
+theorem walkReaches_of_hopsTo {g : Graph} {k s e} (h : HopsTo g.redirectEff k s e) :
+    WalkReaches g k s e := by
+  induction h with
+  | @done s hn =>
+    apply WalkReaches.stop
+    cases hs : g.slot s with
+    | some sl => exact Or.inl (by simp)
+    | none => exact Or.inr (by simpa [Graph.redirectEff, effRedirect, hs] using hn)
+  | @hop k s t e hr _ ih =>
+    cases hs : g.slot s with
+    | some sl => simp [Graph.redirectEff, effRedirect, resolveStopsAtEntry, hs] at hr
+    | none => exact WalkReaches.hop hs (by simpa [Graph.redirectEff, effRedirect, hs] using hr) ih
 
 /-- **resolve follows the chain** (general form, for whatever cap the source has). -/
 theorem resolve_follows_chain (g : Graph) (k : Nat) (s e : Spec)
-    (h : HopsTo g.redirect k s e)
+    (h : HopsTo g.redirectEff k s e)
     (hcap : ∀ max, resolveCap = some max → k + 1 ≤ max)
     (hfuel : k ≤ g.resolveFuel + 1) :
     g.resolve s = e :=
-  resolveWith_chain g.redirect resolveCap g.resolveFuel k s e h hfuel hcap
+  resolveWith_chain g.redirectEff resolveCap g.resolveFuel k s e h hfuel hcap
 
 /-- With the cap currently in the source (`MAX_REDIRECTS = 10`, regenerated table) chains of up
 to 9 hops resolve to their end.  Re-checked against the regenerated `Tables.lean` on every run:
 a smaller cap in the source breaks this proof. -/
 theorem resolve_follows_chain_current (g : Graph) (k : Nat) (s e : Spec)
-    (h : HopsTo g.redirect k s e) (hk : k ≤ 9) : g.resolve s = e := by
+    (h : HopsTo g.redirectEff k s e) (hk : k ≤ 9) : g.resolve s = e := by
   apply resolve_follows_chain g k s e h
   · intro max hmax
     simp [resolveCap, resolveHasCap, resolveMaxRedirects] at hmax
@@ -72,21 +94,29 @@ theorem resolve_follows_chain_current (g : Graph) (k : Nat) (s e : Spec)
   · simp [Graph.resolveFuel, resolveCap, resolveHasCap, resolveMaxRedirects]
     omega
 
+/-- resolve goes where the walk goes, for every chain within the cap — whatever the redirect table
+says about specifiers that have entries of their own -/
+theorem resolve_is_walk_end (g : Graph) (k : Nat) (s e : Spec)
+    (hw : WalkReaches g k s e) (hk : k ≤ 9) : g.resolve s = e :=
+  resolve_follows_chain_current g k s e (hopsTo_of_walkReaches hw) hk
+
 /-- resolve is idempotent on terminating chains within the cap -/
 theorem resolve_idempotent_on_chain (g : Graph) (k : Nat) (s e : Spec)
-    (h : HopsTo g.redirect k s e) (hk : k ≤ 9) : g.resolve (g.resolve s) = g.resolve s := by
-  have h1 := resolve_follows_chain_current g k s e h hk
-  have h2 := resolve_follows_chain_current g 0 e e (HopsTo.done h.end_no_redirect) (by omega)
+    (h : WalkReaches g k s e) (hk : k ≤ 9) : g.resolve (g.resolve s) = g.resolve s := by
+  have hh := hopsTo_of_walkReaches h
+  have h1 := resolve_follows_chain_current g k s e hh hk
+  have h2 := resolve_follows_chain_current g 0 e e (HopsTo.done hh.end_no_redirect) (by omega)
   rw [h1, h2]
 
-/-- **lookups agree with the walk** (partial: chains of ≤ 9 hops that end at a specifier
-without a redirect entry; see the counterexamples below for what lies outside). -/
+/-- **lookups agree with the walk** (partial only in the length of the chain: ≤ 9 hops, finding
+F1; nothing is assumed about where entries sit — before the repair of F12/F35 the end of the
+chain had to be a specifier without a redirect entry). -/
 theorem lookup_agrees_partial (g : Graph) (k : Nat) (s e : Spec)
-    (hw : WalkReaches g k s e) (he : g.redirect e = none) (hk : k ≤ 9) :
+    (hw : WalkReaches g k s e) (hk : k ≤ 9) :
     g.tryGet s = endResult g e ∧
     g.get s = (if g.isModule e then some e else none) ∧
     g.contains s = g.isModule e := by
-  have hr := resolve_follows_chain_current g k s e (hopsTo_of_walkReaches hw he) hk
+  have hr := resolve_is_walk_end g k s e hw hk
   refine ⟨?_, ?_, ?_⟩
   · simp only [Graph.tryGet, hr, endResult]
     cases g.slot e with
@@ -109,6 +139,20 @@ example : WalkReaches g2 2 0 2 ∧ g2.redirect 2 = none ∧ g2.tryGet 0 = .modul
   exact .hop (t := 1) (by decide) (by decide)
     (.hop (t := 2) (by decide) (by decide) (.stop (Or.inl (by decide))))
 
+/-- findings F12 / F35 (repaired): an entry stored under a redirect source — an error recorded on
+a member of a redirect chain, or a module the loader reported under a specifier a stale lockfile
+redirects — is what the lookups return, as the walk does.  `1` has a module and the table still
+says `1 → 2`. -/
+def gStale : Graph :=
+  { kind := .All, roots := [0], slots := [(1, .module .json)], redirects := [(0, 1), (1, 2)],
+    imports := [], schemes := [] }
+
+theorem entry_on_redirect_source_is_found :
+    WalkReaches gStale 1 0 1 ∧ gStale.tryGet 0 = .module 1 ∧ gStale.get 1 = some 1 ∧
+    gStale.resolve (gStale.resolve 0) = gStale.resolve 0 := by
+  refine ⟨?_, by decide, by decide, by decide⟩
+  exact .hop (t := 1) (by decide) (by decide) (.stop (Or.inl (by decide)))
+
 /-! ## what is false of the current code (findings, replayed on the implementation) -/
 
 /-- a chain of `n` redirects `0 → 1 → … → n` ending in a JSON module at `n` -/
@@ -118,8 +162,7 @@ def chainGraph (n : Nat) : Graph :=
 
 /-- full statement: lookups agree with the walk for every terminating chain -/
 def lookup_agrees_statement : Prop :=
-  ∀ (g : Graph) (k : Nat) (s e : Spec), WalkReaches g k s e → g.redirect e = none →
-    g.tryGet s = endResult g e
+  ∀ (g : Graph) (k : Nat) (s e : Spec), WalkReaches g k s e → g.tryGet s = endResult g e
 
 /-- F1: with 10 hops the walk reaches the module, the lookups do not. -/
 theorem redirect_cap_counterexample :
